@@ -2,6 +2,7 @@
    report models: the five modes and the view of a step file row the report
    reads (step_get_field on name, exit, duration, delta, log, time, skip). *)
 From Robsd Require Export Base.Bytes Step.StepDefs.
+From Coq Require Import String.
 Local Open Scope N_scope.
 
 Inductive mode := Robsd | Cross | Ports | Regress | Canvas.
@@ -30,13 +31,13 @@ Definition geti (st : row) (name : bytes) : Z :=
 Definition gets (st : row) (name : bytes) : bytes :=
   match get_field st name with Some (VStr s) => s | _ => [] end.
 
-Definition fn_name := Eval vm_compute in bs "name".
-Definition fn_exit := Eval vm_compute in bs "exit".
-Definition fn_duration := Eval vm_compute in bs "duration".
-Definition fn_delta := Eval vm_compute in bs "delta".
-Definition fn_log := Eval vm_compute in bs "log".
-Definition fn_time := Eval vm_compute in bs "time".
-Definition fn_skip := Eval vm_compute in bs "skip".
+Definition fn_name := Eval vm_compute in bs "name"%string.
+Definition fn_exit := Eval vm_compute in bs "exit"%string.
+Definition fn_duration := Eval vm_compute in bs "duration"%string.
+Definition fn_delta := Eval vm_compute in bs "delta"%string.
+Definition fn_log := Eval vm_compute in bs "log"%string.
+Definition fn_time := Eval vm_compute in bs "time"%string.
+Definition fn_skip := Eval vm_compute in bs "skip"%string.
 
 Definition view (st : row) : srow :=
   mksrow (gets st fn_name) (geti st fn_exit) (geti st fn_duration) (geti st fn_delta)
